@@ -1438,4 +1438,354 @@ theorem lookupFixed_parseFixed_none (raw : List (List Char × Int)) (k : List Ch
   rw [parseFixed_eq, lookupFixed_foldl_other _ _ _ h]; rfl
 
 
+
+/-- node `j` of the implicit binary tree over the first `m` items is no younger than… i.e. its
+`lastAccess` is ≤ that of its children -/
+def NodeOk (l : List HItem) (m j : Nat) : Prop :=
+  (2 * j + 1 < m → la l j ≤ la l (2 * j + 1)) ∧ (2 * j + 2 < m → la l j ≤ la l (2 * j + 2))
+
+/-- the child selection of `heapifyMin` -/
+def pickS1 (l : List HItem) (m i : Nat) : Nat := if 2 * i + 1 < m ∧ la l (2 * i + 1) < la l i then 2 * i + 1 else i
+def pickS2 (l : List HItem) (m i : Nat) : Nat :=
+  if 2 * i + 2 < m ∧ la l (2 * i + 2) < la l (pickS1 l m i) then 2 * i + 2 else pickS1 l m i
+
+theorem heapifyMin_succ (l : List HItem) (i m fuel : Nat) :
+    heapifyMin l i m (fuel + 1) =
+      if pickS2 l m i = i then l else heapifyMin (swapL l i (pickS2 l m i)) (pickS2 l m i) m fuel := rfl
+
+theorem pick_spec (l : List HItem) (m i : Nat) :
+    (pickS2 l m i = i ∧ (2 * i + 1 < m → la l i ≤ la l (2 * i + 1)) ∧ (2 * i + 2 < m → la l i ≤ la l (2 * i + 2))) ∨
+    ((pickS2 l m i = 2 * i + 1 ∨ pickS2 l m i = 2 * i + 2) ∧ pickS2 l m i < m ∧ la l (pickS2 l m i) < la l i ∧
+      (2 * i + 1 < m → la l (pickS2 l m i) ≤ la l (2 * i + 1)) ∧
+      (2 * i + 2 < m → la l (pickS2 l m i) ≤ la l (2 * i + 2))) := by
+  unfold pickS2 pickS1
+  by_cases h1 : 2 * i + 1 < m ∧ la l (2 * i + 1) < la l i
+  · rw [if_pos h1]
+    by_cases h2 : 2 * i + 2 < m ∧ la l (2 * i + 2) < la l (2 * i + 1)
+    · rw [if_pos h2]
+      right
+      exact ⟨Or.inr rfl, h2.1, by omega, fun _ => by omega, fun _ => Int.le_refl _⟩
+    · rw [if_neg h2]
+      right
+      refine ⟨Or.inl rfl, h1.1, h1.2, fun _ => Int.le_refl _, fun h => ?_⟩
+      by_cases h3 : la l (2 * i + 2) < la l (2 * i + 1)
+      · exact absurd ⟨h, h3⟩ h2
+      · omega
+  · rw [if_neg h1]
+    by_cases h2 : 2 * i + 2 < m ∧ la l (2 * i + 2) < la l i
+    · rw [if_pos h2]
+      right
+      refine ⟨Or.inr rfl, h2.1, h2.2, fun h => ?_, fun _ => Int.le_refl _⟩
+      by_cases h3 : la l (2 * i + 1) < la l i
+      · exact absurd ⟨h, h3⟩ h1
+      · omega
+    · rw [if_neg h2]
+      left
+      refine ⟨rfl, fun h => ?_, fun h => ?_⟩
+      · by_cases h3 : la l (2 * i + 1) < la l i
+        · exact absurd ⟨h, h3⟩ h1
+        · omega
+      · by_cases h3 : la l (2 * i + 2) < la l i
+        · exact absurd ⟨h, h3⟩ h2
+        · omega
+
+
+/-- sift-down: if every node from `s` on except `i` is fine, and the parent of `i` (when it is ≥ `s`)
+is no younger than `i`'s children, then after `heapifyMin l i m` every node from `s` on is fine.
+Items outside `[i, m)` are untouched, values inside `[0, m)` stay inside, and the list is permuted. -/
+theorem heapifyMin_spec : ∀ (fuel : Nat) (l : List HItem) (i m s : Nat),
+    m ≤ l.length → s ≤ i → m - i ≤ fuel →
+    (∀ j, s ≤ j → j ≠ i → NodeOk l m j) →
+    (∀ p, s ≤ p → (i = 2 * p + 1 ∨ i = 2 * p + 2) →
+      (2 * i + 1 < m → la l p ≤ la l (2 * i + 1)) ∧ (2 * i + 2 < m → la l p ≤ la l (2 * i + 2))) →
+    (∀ j, s ≤ j → NodeOk (heapifyMin l i m fuel) m j) ∧ (heapifyMin l i m fuel).length = l.length ∧
+    (∀ x, (x < i ∨ m ≤ x) → (heapifyMin l i m fuel)[x]? = l[x]?) ∧
+    (∀ a, a < m → ∃ a', a' < m ∧ la (heapifyMin l i m fuel) a = la l a') ∧
+    (heapifyMin l i m fuel).Perm l := by
+  intro fuel
+  induction fuel with
+  | zero =>
+    intro l i m s hm hs hf hok _
+    refine ⟨?_, rfl, fun _ _ => rfl, fun a ha => ⟨a, ha, rfl⟩, List.Perm.refl _⟩
+    intro j hj
+    by_cases hji : j = i
+    · subst hji; exact ⟨fun h => by omega, fun h => by omega⟩
+    · exact hok j hj hji
+  | succ fuel ih =>
+    intro l i m s hm hs hf hok hpar
+    rw [heapifyMin_succ]
+    rcases pick_spec l m i with ⟨he, h1, h2⟩ | ⟨hc, hcm, hlt, hc1, hc2⟩
+    · rw [if_pos he]
+      refine ⟨?_, rfl, fun _ _ => rfl, fun a ha => ⟨a, ha, rfl⟩, List.Perm.refl _⟩
+      intro j hj
+      by_cases hji : j = i
+      · subst hji; exact ⟨h1, h2⟩
+      · exact hok j hj hji
+    · have hci : pickS2 l m i ≠ i := by omega
+      rw [if_neg hci]
+      generalize pickS2 l m i = c at hc hcm hlt hc1 hc2 hci
+      have hil : i < l.length := by omega
+      have hcl : c < l.length := by omega
+      have hlen : (swapL l i c).length = l.length := swapL_length l i c
+      have hla : ∀ x, la (swapL l i c) x = if x = c then la l i else if x = i then la l c else la l x :=
+        fun x => la_swapL l i c x hil hcl
+      have hstep := ih (swapL l i c) c m s (by omega) (by omega) (by omega) ?_ ?_
+      · obtain ⟨r1, r2, r3, r4, r5⟩ := hstep
+        refine ⟨r1, by omega, ?_, ?_, r5.trans (swapL_perm l i c)⟩
+        · intro x hx
+          rw [r3 x (by omega), swapL_getElem? l i c x hil hcl]
+          rw [if_neg (by omega), if_neg (by omega)]
+        · intro a ha
+          obtain ⟨a', ha', heq⟩ := r4 a ha
+          rw [heq, hla a']
+          by_cases h1 : a' = c
+          · rw [if_pos h1]; exact ⟨i, by omega, rfl⟩
+          · rw [if_neg h1]
+            by_cases h2 : a' = i
+            · rw [if_pos h2]; exact ⟨c, hcm, rfl⟩
+            · rw [if_neg h2]; exact ⟨a', ha', rfl⟩
+      · -- every node ≥ s except c is fine after the swap
+        intro j hj hjc
+        unfold NodeOk
+        rw [hla j, hla (2 * j + 1), hla (2 * j + 2)]
+        rw [if_neg hjc]
+        by_cases hji : j = i
+        · subst hji
+          rw [if_pos rfl]
+          rcases hc with hc | hc
+          · subst hc
+            rw [if_pos rfl, if_neg (by omega), if_neg (by omega)]
+            exact ⟨fun _ => by omega, hc2⟩
+          · subst hc
+            rw [if_neg (by omega), if_neg (by omega), if_pos rfl]
+            exact ⟨hc1, fun _ => by omega⟩
+        · rw [if_neg hji]
+          have hcj1 : 2 * j + 1 ≠ c := by omega
+          have hcj2 : 2 * j + 2 ≠ c := by omega
+          rw [if_neg hcj1, if_neg hcj2]
+          have hnj := hok j hj hji
+          constructor
+          · intro hlt1
+            by_cases hi1 : 2 * j + 1 = i
+            · rw [if_pos hi1]
+              have := hpar j hj (Or.inl hi1.symm)
+              rcases hc with hc | hc <;> subst hc
+              · exact this.1 hcm
+              · exact this.2 hcm
+            · rw [if_neg hi1]; exact hnj.1 hlt1
+          · intro hlt2
+            by_cases hi2 : 2 * j + 2 = i
+            · rw [if_pos hi2]
+              have := hpar j hj (Or.inr hi2.symm)
+              rcases hc with hc | hc <;> subst hc
+              · exact this.1 hcm
+              · exact this.2 hcm
+            · rw [if_neg hi2]; exact hnj.2 hlt2
+      · -- the parent of c is i, which now holds the old item of c: no younger than c's children
+        intro p hp hpc
+        have hpi : p = i := by omega
+        subst hpi
+        rw [hla p, hla (2 * c + 1), hla (2 * c + 2)]
+        rw [if_neg (by omega), if_pos rfl, if_neg (by omega), if_neg (by omega), if_neg (by omega), if_neg (by omega)]
+        exact hok c (by omega) hci
+
+
+
+theorem buildFrom_spec (n : Nat) : ∀ (cnt : Nat) (l : List HItem), l.length = n →
+    (∀ j, cnt ≤ j → NodeOk l n j) →
+    (∀ j, NodeOk (buildFrom l n cnt) n j) ∧ (buildFrom l n cnt).length = n ∧ (buildFrom l n cnt).Perm l := by
+  intro cnt
+  induction cnt with
+  | zero =>
+    intro l hl h
+    exact ⟨fun j => h j (Nat.zero_le _), hl, List.Perm.refl _⟩
+  | succ i ih =>
+    intro l hl h
+    simp only [buildFrom]
+    obtain ⟨r1, r2, _, _, r5⟩ := heapifyMin_spec n l i n i (by omega) (Nat.le_refl _) (by omega)
+      (fun j hj hji => h j (by omega)) (fun p hp hpi => by omega)
+    obtain ⟨q1, q2, q3⟩ := ih (heapifyMin l i n n) (by omega) r1
+    exact ⟨q1, q2, q3.trans r5⟩
+
+theorem buildMinHeap_spec (l : List HItem) :
+    (∀ j, NodeOk (buildMinHeap l) l.length j) ∧ (buildMinHeap l).length = l.length ∧ (buildMinHeap l).Perm l := by
+  unfold buildMinHeap
+  exact buildFrom_spec l.length (l.length / 2) l rfl
+    (fun j hj => ⟨fun h => by omega, fun h => by omega⟩)
+
+theorem root_min (l : List HItem) (m : Nat) (h : ∀ j, NodeOk l m j) : ∀ a, a < m → la l 0 ≤ la l a := by
+  intro a
+  induction a using Nat.strongRecOn with
+  | _ a ih =>
+    intro ha
+    cases a with
+    | zero => exact Int.le_refl _
+    | succ a =>
+      have hp : a / 2 < a + 1 := by omega
+      have h0 := ih (a / 2) hp (by omega)
+      have hn := h (a / 2)
+      rcases Nat.mod_two_eq_zero_or_one a with he | he
+      · have : a + 1 = 2 * (a / 2) + 1 := by omega
+        rw [this] at ha ⊢
+        exact Int.le_trans h0 (hn.1 ha)
+      · have : a + 1 = 2 * (a / 2) + 2 := by omega
+        rw [this] at ha ⊢
+        exact Int.le_trans h0 (hn.2 ha)
+
+theorem la_congr {l l' : List HItem} {x : Nat} (h : l'[x]? = l[x]?) : la l' x = la l x := by
+  unfold la; rw [h]
+
+/-- the extraction loop: after `j` rounds the last `j` items are the `j` oldest -/
+theorem extractLoop_spec : ∀ (todo : Nat) (l : List HItem) (j : Nat), j + todo < l.length →
+    (∀ x, NodeOk l (l.length - j) x) →
+    (∀ a b, a < l.length - j → l.length - j ≤ b → b < l.length → la l b ≤ la l a) →
+    (extractLoop l j todo).length = l.length ∧ (extractLoop l j todo).Perm l ∧
+    (∀ a b, a < l.length - (j + todo) → l.length - (j + todo) ≤ b → b < l.length →
+      la (extractLoop l j todo) b ≤ la (extractLoop l j todo) a) := by
+  intro todo
+  induction todo with
+  | zero =>
+    intro l j _ _ hord
+    exact ⟨rfl, List.Perm.refl _, hord⟩
+  | succ todo ih =>
+    intro l j hj hheap hord
+    simp only [extractLoop]
+    generalize hn : l.length = n at *
+    have hlast : n - 1 - j < n := by omega
+    have hl1len : (swapL l 0 (n - 1 - j)).length = n := by rw [swapL_length, hn]
+    have hla : ∀ x, la (swapL l 0 (n - 1 - j)) x =
+        if x = n - 1 - j then la l 0 else if x = 0 then la l (n - 1 - j) else la l x :=
+      fun x => la_swapL l 0 (n - 1 - j) x (by omega) (by omega)
+    have hside : ∀ x, 0 ≤ x → x ≠ 0 → NodeOk (swapL l 0 (n - 1 - j)) (n - 1 - j) x := by
+      intro x _ hx0
+      unfold NodeOk
+      rw [hla x, hla (2 * x + 1), hla (2 * x + 2)]
+      have hnx := hheap x
+      constructor
+      · intro h
+        have e1 : ¬ x = n - 1 - j := by omega
+        have e2 : ¬ 2 * x + 1 = n - 1 - j := by omega
+        have e3 : ¬ 2 * x + 1 = 0 := by omega
+        simp only [if_neg e1, if_neg hx0, if_neg e2, if_neg e3]
+        exact hnx.1 (by omega)
+      · intro h
+        have e1 : ¬ x = n - 1 - j := by omega
+        have e2 : ¬ 2 * x + 2 = n - 1 - j := by omega
+        have e3 : ¬ 2 * x + 2 = 0 := by omega
+        simp only [if_neg e1, if_neg hx0, if_neg e2, if_neg e3]
+        exact hnx.2 (by omega)
+    obtain ⟨r1, r2, r3, r4, r5⟩ := heapifyMin_spec (n - 1 - j) (swapL l 0 (n - 1 - j)) 0 (n - 1 - j) 0
+      (by omega) (Nat.le_refl _) (by omega) hside (fun p _ hp => by omega)
+    have hlen2 : (heapifyMin (swapL l 0 (n - 1 - j)) 0 (n - 1 - j) (n - 1 - j)).length = n := by omega
+    have hm' : n - (j + 1) = n - 1 - j := by omega
+    have hroot := root_min l (n - j) hheap
+    have hord2 : ∀ a b, a < n - 1 - j → n - 1 - j ≤ b → b < n →
+        la (heapifyMin (swapL l 0 (n - 1 - j)) 0 (n - 1 - j) (n - 1 - j)) b ≤
+        la (heapifyMin (swapL l 0 (n - 1 - j)) 0 (n - 1 - j) (n - 1 - j)) a := by
+      intro a b ha hb hbn
+      obtain ⟨a', ha', heq⟩ := r4 a ha
+      rw [heq, la_congr (r3 b (Or.inr hb)), hla a', hla b]
+      have ea : ¬ a' = n - 1 - j := by omega
+      have eb0 : ¬ b = 0 := by omega
+      simp only [if_neg ea, if_neg eb0]
+      by_cases hb1 : b = n - 1 - j
+      · simp only [if_pos hb1]
+        by_cases ha0 : a' = 0
+        · simp only [if_pos ha0]; exact hroot _ (by omega)
+        · simp only [if_neg ha0]; exact hroot _ (by omega)
+      · simp only [if_neg hb1]
+        by_cases ha0 : a' = 0
+        · simp only [if_pos ha0]; exact hord _ b (by omega) (by omega) hbn
+        · simp only [if_neg ha0]; exact hord _ b (by omega) (by omega) hbn
+    obtain ⟨q1, q2, q3⟩ := ih (heapifyMin (swapL l 0 (n - 1 - j)) 0 (n - 1 - j) (n - 1 - j)) (j + 1)
+      (by omega) (by rw [hlen2, hm']; exact fun x => r1 x (Nat.zero_le _)) (by rw [hlen2, hm']; exact hord2)
+    refine ⟨by omega, q2.trans (r5.trans (swapL_perm _ _ _)), ?_⟩
+    intro a b ha hb hbn
+    rw [hlen2] at q3
+    exact q3 a b (by omega) (by omega) hbn
+
+
+
+theorem la_of_getElem (l : List HItem) (x : Nat) (hx : x < l.length) : la l x = (l[x]).2 := by
+  unfold la; rw [List.getElem?_eq_getElem hx]; rfl
+
+/-- the heap selection of `evictLRUIfFull` is a legal LRU choice, whatever order `sync.Map.Range`
+produced the entries in -/
+theorem heapChoice_valid (es : List (Key × Entry)) (hkn : KN es) (k : Nat) (hk : k < es.length) :
+    validChoice es k (heapChoice (lruItems es) k) = true := by
+  have hlen : (lruItems es).length = es.length := by simp [lruItems]
+  obtain ⟨b1, b2, b3⟩ := buildMinHeap_spec (lruItems es)
+  obtain ⟨r1, r2, r3⟩ := extractLoop_spec k (buildMinHeap (lruItems es)) 0 (by omega)
+    (by rw [b2]; simpa using b1) (fun a b ha hb hbn => by omega)
+  have hperm : (extractLoop (buildMinHeap (lruItems es)) 0 k).Perm (lruItems es) := r2.trans b3
+  generalize hr : extractLoop (buildMinHeap (lruItems es)) 0 k = r at *
+  have hrlen : r.length = es.length := by omega
+  have hch : heapChoice (lruItems es) k = (r.drop (es.length - k)).map (·.1) := by
+    unfold heapChoice; rw [if_pos (by omega), hr, hlen]
+  rw [hch]
+  have hitems : ∀ x ∈ r, ∃ e, (x.1, e) ∈ es ∧ x.2 = e.lastAccess := by
+    intro x hx
+    have := hperm.mem_iff.mp hx
+    simp only [lruItems, List.mem_map] at this
+    obtain ⟨p, hp, rfl⟩ := this
+    exact ⟨p.2, hp, rfl⟩
+  have hkeys : (r.map (·.1)).Perm (es.map Prod.fst) := by
+    have := hperm.map (·.1)
+    simpa [lruItems, List.map_map, Function.comp_def] using this
+  have hnd : ((r.drop (es.length - k)).map (·.1)).Nodup := by
+    rw [List.map_drop]
+    exact List.Nodup.sublist (List.drop_sublist _ _) (hkeys.nodup_iff.mpr hkn)
+  unfold validChoice
+  simp only [Bool.and_eq_true, beq_iff_eq, decide_eq_true_eq, List.all_eq_true, Bool.or_eq_true,
+    List.contains_iff_mem]
+  refine ⟨⟨⟨?_, hnd⟩, ?_⟩, ?_⟩
+  · simp only [List.length_map, List.length_drop]; omega
+  · intro c hc
+    obtain ⟨x, hx, rfl⟩ := List.mem_map.mp hc
+    obtain ⟨e, he, _⟩ := hitems x (List.mem_of_mem_drop hx)
+    rw [find_of_mem hkn he]; rfl
+  · intro c hc p hp
+    obtain ⟨x, hx, rfl⟩ := List.mem_map.mp hc
+    obtain ⟨ib, hib, hxe⟩ := List.mem_iff_getElem.mp hx
+    simp only [List.length_drop] at hib
+    rw [List.getElem_drop] at hxe
+    obtain ⟨e, he, hxla⟩ := hitems x (List.mem_of_mem_drop hx)
+    rw [find_of_mem hkn he]
+    simp only [Option.map_some, Option.getD_some]
+    -- where is p in r ?
+    have hpr : (p.1, p.2.lastAccess) ∈ r := hperm.mem_iff.mpr (by
+      simp only [lruItems, List.mem_map]; exact ⟨p, hp, rfl⟩)
+    obtain ⟨ia, hia, hpa⟩ := List.mem_iff_getElem.mp hpr
+    by_cases hside : es.length - k ≤ ia
+    · left
+      refine List.mem_map.mpr ⟨(p.1, p.2.lastAccess), ?_, rfl⟩
+      rw [← hpa]
+      have : r[ia] = (r.drop (es.length - k))[ia - (es.length - k)]'(by simp only [List.length_drop]; omega) := by
+        rw [List.getElem_drop]; congr 1; omega
+      rw [this]; exact List.getElem_mem _
+    · right
+      have := r3 ia (es.length - k + ib) (by omega) (by omega) (by omega)
+      rw [la_of_getElem r _ (by omega), la_of_getElem r ia hia, hxe, hpa, hxla] at this
+      exact this
+
+/-- what `evictLRUIfFull` achieves, for ANY iteration order / tie-breaking of the implementation:
+exactly the surplus is evicted and no evicted entry was used more recently than a survivor -/
+theorem lruEvict_full (cfg : Cfg) (es : List (Key × Entry)) (choice : List Key) (hkn : KN es)
+    (hmax : cfg.maxSize > 0) (hover : (es.length : Int) > cfg.maxSize) :
+    (lruEvict cfg es choice).length = cfg.maxSize.toNat ∧
+    (∀ p ∈ lruEvict cfg es choice, p ∈ es) ∧
+    ∀ p ∈ es, p ∉ lruEvict cfg es choice → ∀ q ∈ lruEvict cfg es choice, p.2.lastAccess ≤ q.2.lastAccess := by
+  by_cases hv : validChoice es (es.length - cfg.maxSize.toNat) choice = true
+  · exact lruEvict_spec cfg es choice hkn hmax hover hv
+  · have hk : es.length - cfg.maxSize.toNat < es.length := by omega
+    have hv' := heapChoice_valid es hkn _ hk
+    have heq : lruEvict cfg es choice = lruEvict cfg es (heapChoice (lruItems es) (es.length - cfg.maxSize.toNat)) := by
+      unfold lruEvict
+      rw [if_pos ⟨hmax, hover⟩, if_pos ⟨hmax, hover⟩]
+      simp only [hv, hv', if_true]
+      rfl
+    rw [heq]
+    exact lruEvict_spec cfg es _ hkn hmax hover hv'
+
+
 end DaeVerif.C08
